@@ -534,6 +534,11 @@ impl QuicMultiplexer {
         packet: &mut [u8],
     ) -> io::Result<QuicConnection> {
         let local_address = self.core_settings.listen_address;
+        #[cfg(trusttunnel_verif)]
+        crate::verif::shutdown::sync::gate_probe("tls_demux:quic:before_bootstrap_read", &|| {
+            let unavailable = self.tls_demux.try_read().is_err();
+            (unavailable, unavailable)
+        });
         let mut quic_config =
             make_quic_config_with_domain_contexts(&self.core_settings, self.tls_demux.clone())?;
         let mut quic_conn = quiche::accept(scid, odcid, local_address, *peer, &mut quic_config)
@@ -573,6 +578,11 @@ impl QuicMultiplexer {
             .to_string();
 
         if !sni.is_empty() {
+            #[cfg(trusttunnel_verif)]
+            crate::verif::shutdown::sync::gate_probe("tls_demux:quic:before_finalize_select", &|| {
+                let unavailable = self.tls_demux.try_read().is_err();
+                (unavailable, unavailable)
+            });
             if let Ok(meta) = self.tls_demux.read().unwrap().select(
                 std::iter::once(tls_demultiplexer::Protocol::Http3.as_alpn().as_bytes()),
                 sni,
@@ -1311,6 +1321,11 @@ fn make_quic_config_with_domain_contexts(
             return Ok(());
         };
 
+        #[cfg(trusttunnel_verif)]
+        crate::verif::shutdown::sync::gate_probe("tls_demux:quic:before_select_certificate", &|| {
+            let unavailable = tls_demux_clone.try_read().is_err();
+            (unavailable, unavailable)
+        });
         let meta = match tls_demux_clone.read().unwrap().select(
             std::iter::once(tls_demultiplexer::Protocol::Http3.as_alpn().as_bytes()),
             sni.to_string(),
